@@ -51,12 +51,13 @@ def C05(ck):
                     cfgs.append(rcfg(jobs, k, lens=(1, 3) if jobs < 4 else (3,)))
     ck.cov['rule'] = ('KzReader exhaustively for each (jobs, wire, last block size, hint, Read lengths) config; every edge of each '
                       'state graph replayed on the real Reader through gates; record-mode runs over random codecs/jobs/Read lengths '
-                      'judged by Trace_Reader. non-trivial = replay with >= 2 task steps, or record run with > 1 block')
+                      'judged by Trace_Reader; c05m: every transform on data that activates it, a dozen 256 KiB blocks with different content, decoded with 2..16 jobs. non-trivial = replay with >= 2 task steps, or record run with > 1 block')
     kzreader.selftest_asis(ck, rcfg(2, ['ok', 'ok', 'crc', 'ok', 'eos']))
     live = [rcfg(2, clean(3), lens=(3,)), rcfg(3, ['ok', 'crc', 'ok', 'ok', 'eos'], lens=(3,))]
     scen = kzreader.run_models(ck, cfgs, liveness_cfgs=live)
     kzreader.replay(ck, scen, {'R_Prefix', 'R_NothingAfterError'})
     kzreader.record(ck, 'c05', 1500 if T else 250, thorough=T)
+    kzreader.record(ck, 'c05m', 0, thorough=T)
     ck.assumptions += ['abstract bytes are scaled to real bytes by realB/B (all cursor arithmetic is homogeneous)',
                        'codec correctness on the generated data is C01/C12/C13 territory: runs whose reference decode fails are skipped']
 
@@ -371,6 +372,9 @@ def C06(ck):
     kzreader.replay(ck, rscen, set())
     kzreader.record(ck, 'c06', 2000 if T else 400, thorough=T)
     kzwriter.record(ck, 'c04', 60 if T else 8, thorough=T)
+    # the component that talks to the source: bit-level programs read back through sources delivering 1, 7, 8, 9, 13/5/64 ... bytes per
+    # call, arrays larger than the internal buffer included (the same programs as C14; here only what depends on the chunking counts)
+    _bits_run(ck, [], 6000 if T else 1200, T, ('C14_read_values', 'C14_read_faults', 'C14_read_counter'))
 
 
 # ------------------------------------------------------------------------------------------------
